@@ -2,7 +2,7 @@
 
 use crate::{announce, guarded};
 use bvcommon::arith::{self, ArithErr, Evaluator, A};
-use bvcommon::runner::{explore, replay_case, Ctx, Layer, LayerReport, Verdict};
+use bvcommon::runner::{explore_par, replay_case, Ctx, Layer, LayerReport, Verdict};
 use serde::{Deserialize, Serialize};
 
 #[derive(Clone, Debug, Serialize, Deserialize)]
@@ -181,7 +181,7 @@ pub fn run(ctx: &Ctx) -> Vec<LayerReport> {
     use proptest::strategy::Strategy;
     let n = ctx.tier.pick(60_000, 2_000_000);
     let depth = ctx.tier.pick(4, 6);
-    vec![explore(&Eval, arith::expr(depth).prop_map(|e| Case { e }), n, ctx)]
+    vec![explore_par(&Eval, || arith::expr(depth).prop_map(|e| Case { e }), n, ctx)]
 }
 
 pub fn replay(layer: &str, case: &serde_json::Value) -> Result<(String, Verdict), String> {
